@@ -1,5 +1,6 @@
 import GoldModel.Props.C10
 import GoldModel.Props.C11
+import GoldModel.Lemmas.ScopeCanon
 /-!
 # C17 — letter case of references never changes the analysis (name resolution, completion,
 class index, native types, intrinsics)
@@ -250,5 +251,71 @@ example : ExRel asciiUpper (.dot (.term "SELF") (.term "FX")) (.dot (.term "self
   ⟨show asciiUpper "SELF" = asciiUpper "self" by decide, show asciiUpper "FX" = asciiUpper "fx" by decide⟩
 example : definition asciiUpper [nvC, nvP, nvM] ⟨"ac", some 0, 5, .right (.dot (.term "SELF") (.term "FX")) (some "Fx")⟩
     = [⟨"aP", ⟨⟨1, 0⟩, ⟨1, 2⟩⟩, Range.zero⟩] := by decide
+
+/-! ## workspace level: re-casing the references inside declarations
+
+`cWs norm w` (Lemmas/ScopeCanon.lean) is `w` with every reference — type names of fields,
+variables, parameters and return types, parent names of headers, entries of uses lists — in
+folded spelling; declarations are untouched.  Two workspaces are re-casings of one another
+exactly when their canonical forms coincide. -/
+
+/-- `w'` is `w` with (some of) its references spelled in another letter case -/
+def Recased (w w' : Ws) : Prop := cWs norm w = cWs norm w'
+
+instance (w w' : Ws) : Decidable (Recased norm w w') := by unfold Recased; exact inferInstance
+
+/-- **recase_invariant (definition)** — `analyse (recase w) = analyse w` for go-to-definition:
+    re-casing the references of a workspace changes no answer.  Hypotheses: `norm` is idempotent
+    (as upper-casing is), both workspaces satisfy `WellFormedWs`, no header names a parent that
+    folds like the class itself (the self-parent guard compares spellings exactly: C13/C14), and
+    the position lies after the file's header (`1 ≤ time`, true of every position of a
+    well-formed file: the header is the first visit). -/
+theorem recase_invariant_definition (hn : ∀ s, norm (norm s) = norm s) {w w' : Ws}
+    (h : WellFormedWs norm w) (h' : WellFormedWs norm w') (hp : NoSelfParent norm w) (hp' : NoSelfParent norm w')
+    (hr : Recased norm w w') (o : Occ) (ht : 1 ≤ o.time) :
+    definition norm w o = definition norm w' o := by
+  rw [← c_definition norm hn w h hp o ht, ← c_definition norm hn w' h' hp' o ht, hr]
+
+/-- **recase_invariant (completion)** -/
+theorem recase_invariant_completion (hn : ∀ s, norm (norm s) = norm s) {w w' : Ws}
+    (h : WellFormedWs norm w) (h' : WellFormedWs norm w') (hp : NoSelfParent norm w) (hp' : NoSelfParent norm w')
+    (hr : Recased norm w w') (o : COcc) (ht : 1 ≤ o.time) :
+    completion norm w o = completion norm w' o := by
+  rw [← c_completion norm hn w h hp o ht, ← c_completion norm hn w' h' hp' o ht, hr]
+
+/-- ASCII upper-casing, the executable stand-in for `to_uppercase`, is idempotent -/
+theorem toUpper_idem (c : Char) : c.toUpper.toUpper = c.toUpper := by
+  by_cases h : (97 : UInt32) ≤ c.val ∧ c.val ≤ 122
+  · have hv : c.toUpper.val = c.val + 4294967264 := by simp [Char.toUpper, h]
+    have h2 : ¬ ((97 : UInt32) ≤ c.toUpper.val ∧ c.toUpper.val ≤ 122) := by
+      rw [hv]
+      have h1 := h.1; have h3 := h.2
+      simp only [UInt32.le_iff_toNat_le] at h1 h3 ⊢
+      have e1 : (97 : UInt32).toNat = 97 := rfl
+      have e2 : (122 : UInt32).toNat = 122 := rfl
+      have e3 : (4294967264 : UInt32).toNat = 4294967264 := rfl
+      rw [e1] at h1 ⊢; rw [e2] at h3 ⊢
+      rw [UInt32.toNat_add, e3]
+      omega
+    generalize c.toUpper = d at h2
+    simp [Char.toUpper, h2]
+  · have : c.toUpper = c := by simp [Char.toUpper, h]
+    rw [this, this]
+
+theorem asciiUpper_idem (s : String) : asciiUpper (asciiUpper s) = asciiUpper s := by
+  simp [asciiUpper, List.map_map, Function.comp_def, toUpper_idem]
+
+/-- non-vacuity: the C10 sample workspace and a re-casing of all its references (parent `AP` → `ap`,
+    uses `WM` → `wm`, field type `ap` → `AP`, parameter type `AC` → `aC`) have the same canonical
+    form, both satisfy every hypothesis, and a chained request gets the same answer -/
+def nvD : Entity := { stem := "ac", top := [.cls { uid := 5, id := "aC", kind := .cls } (some "ap"), .uses "wm",
+                        .decl { uid := 6, id := "FX", kind := .field, ty := .basic "AP", sel := ⟨⟨3, 0⟩, ⟨3, 2⟩⟩ }],
+                      methods := [{ decl := { uid := 7, id := "Run", kind := .proc },
+                                    params := [{ uid := 8, id := "p", kind := .var, ty := .basic "aC", sel := ⟨⟨5, 9⟩, ⟨5, 10⟩⟩ }] }] }
+
+example : Recased asciiUpper [nvC, nvP, nvM] [nvD, nvP, nvM] := by decide
+example : WellFormedWs asciiUpper [nvD, nvP, nvM] := by decide
+example : definition asciiUpper [nvC, nvP, nvM] ⟨"ac", some 0, 5, .right (.dot (.term "p") (.term "fx")) (some "fx")⟩
+    = definition asciiUpper [nvD, nvP, nvM] ⟨"ac", some 0, 5, .right (.dot (.term "p") (.term "fx")) (some "fx")⟩ := by decide
 
 end Gold.C17
